@@ -237,7 +237,11 @@ func (p *rt) RootContext() px.Context {
 }
 
 func (p *rt) Do(actor func(px.Context)) {
-	p.DoWithParent(p.RootContext(), actor)
+	// The root context is current only during the call (RootContext() would replace the local storage of
+	// the go routine and leave its context current after the return)
+	p.DoWithParent(context.Background(), func(root px.Context) {
+		p.DoWithParent(root, actor)
+	})
 }
 
 func (p *rt) DoWithParent(parentCtx context.Context, actor func(px.Context)) {
@@ -255,7 +259,10 @@ func (p *rt) DoWithParent(parentCtx context.Context, actor func(px.Context)) {
 }
 
 func (p *rt) Try(actor func(px.Context) error) (err error) {
-	return p.TryWithParent(p.RootContext(), actor)
+	return p.TryWithParent(context.Background(), func(root px.Context) (err error) {
+		p.DoWithParent(root, func(c px.Context) { err = actor(c) })
+		return
+	})
 }
 
 func (p *rt) TryWithParent(parentCtx context.Context, actor func(px.Context) error) (err error) {
